@@ -5,7 +5,9 @@ import os
 HERE = os.path.dirname(os.path.abspath(__file__))
 TECH = "bounded symbolic execution of the real functions (symx proxy objects over /repo's current source) with z3 deciding every branch and assertion; counterexamples replayed on the uninstrumented code"
 TRUST = ("Trusted: z3 5.1, CPython 3.12, the symx engine (proxies, SStr/SymRe, AST import rewrite) as validated on every run by "
-         "translator validation + native re-execution of sampled paths, the short oracles in props/%s.py, and the listed stubs. ")
+         "translator validation + native re-execution of sampled paths, the short oracles in props/%s.py, and the listed stubs. "
+         "The complete list of obligations of a run (description, bounds, stubs, assumptions, what is outside, paths, solver queries, "
+         "whether exhaustive within the bound) is written to the evidence file by the run itself; DESIGN.md section 2 describes them. ")
 
 CHECKS = {
     "C01": dict(
@@ -114,7 +116,7 @@ CHECKS["C16"] = dict(
          "digit strings: CLI > env > file > default, unknown names never become settings nor clobber methods.",
     note="Stubs: os.environ of the config module is a private mapping, sys.argv and a scratch config file per path; output "
          "location probes run on a prepared scratch directory. Outside: app/compliance manifests, argparse/ConfigParser internals, "
-         "the --conf option, several options set simultaneously through load_all.")
+         "arbitrary combinations of several options through load_all (the legacy alias pair, two loads in one process and the choice of the configuration file are separate obligations).")
 
 CHECKS["C18"] = dict(
     text="Bounded symbolic execution of the real PlaybookSerializer on plays whose strings (values and mapping keys) are symbolic "
@@ -151,7 +153,7 @@ CHECKS["C09"] = dict(
          "list nothing that never occurred; (5) the same for host names.",
     note="One recorded finding (known_findings.txt): originals inside 10.230.230.0/24 are rewritten by the chained textual replace; "
          "paths carrying that signature are kept apart and one is replayed per run, every other violation is still reported. "
-         "Outside: SHA-1 collisions, IPv6, keyword mapping, the facts/CSV files.")
+         "IPv6 is covered by a finite exploration over 4 addresses x 3 notations. Outside: SHA-1 collisions, keyword mapping, the facts/CSV files.")
 
 CHECKS["C10"] = dict(
     text="Bounded symbolic execution of the real Cleaner.clean_content / obfuscators / ContentProvider.write with every set() of the "
@@ -186,7 +188,7 @@ CHECKS["C06"] = dict(
          "location beneath the output directory; mangle_command on symbolic commands (SymRe) never yields '/', '.' or '..'.",
     note="One recorded finding: relative paths with net-upward '..' are persisted outside the data directory (known_findings.txt). "
          "Containment counterexamples are replayed with real directories and symlinks. Outside: the kernel's resolution itself, "
-         "container factories, absolute / '..' save_as constants.")
+         "save_as names with '.' segments. Later obligations add the container factories, components deny-listed by name and save-as names as the factories normalise them.")
 
 CHECKS["C15"] = dict(
     text="Bounded symbolic execution of the real shared helpers on documents rendered from symbolic cells, keys and values (SStr): "
